@@ -217,6 +217,11 @@ func (vt *Model) Update(msg vaxis.Event) {
 	vt.invalidate()
 	switch msg := msg.(type) {
 	case vaxis.Key:
+		if msg.EventType == vaxis.EventRelease {
+			// the xterm encoding has no key releases: writing the
+			// key again would make the child see it pressed twice
+			return
+		}
 		str := encodeXterm(msg, vt.mode.deckpam, vt.mode.decckm)
 		vt.pty.WriteString(str)
 	case vaxis.PasteStartEvent:
